@@ -1,6 +1,7 @@
 (* C02 — A task whose inputs are unchanged since its last success is skipped.
    Statements + `exact` + Print Assumptions only. *)
-From Spok Require Import Base RunCache RunCacheProofs RunCacheInst.
+From Spok Require Import Base Graph GraphProofs RunCache RunCacheProofs RunCacheInst App AppProofs.
+From Coq Require Import Permutation.
 
 Section C02.
 Variable D : Type.
@@ -33,6 +34,22 @@ End C02.
 Print Assumptions C02_invariant.
 Print Assumptions C02_skip_complete.
 Print Assumptions C02_nodeps_always_run.
+
+(* the same at the command line (selection + cache protocol + reporting composed): invocations keep the crash-free invariant, and
+   an unforced invocation reports every selected task with at least one dependency file whose last successful completion was on
+   exactly its current inputs as skipped, and does not execute it - whatever the other tasks of the invocation do *)
+Theorem C02_invocations_keep_invariant : forall pick defs vars s f req s' ob,
+  Inv2_i s -> invoke pick defs vars s f req = (s', ob) -> Inv2_i s'.
+Proof. exact invoke_keeps_invariant2. Qed.
+Print Assumptions C02_invocations_keep_invariant.
+
+Theorem C02_invocation : forall pick defs vars s f req s' ob rs r d F,
+  (forall k l, Permutation (pick k l) l) -> Inv2_i s -> f_force f = false ->
+  invoke pick defs vars s f req = (s', ob) -> ob_stdout ob = SDJson rs -> In r rs ->
+  find_def defs (tr_name r) = Some d -> inputs_of (files DI s) (to_task d) = Some F -> F <> [] -> last_ok DI s (tr_name r) = Some F ->
+  tr_skipped r = true /\ ~ In (tr_name r) (ob_executed ob).
+Proof. exact invocation_skip_complete. Qed.
+Print Assumptions C02_invocation.
 
 Definition ta := {| tname := 0; lits := [0]; globs := [] |}.
 Definition tn := {| tname := 2; lits := []; globs := [[5; 6]] |}.   (* glob matching nothing *)
